@@ -73,6 +73,10 @@ pub enum F {
     Tuple,
     Second,
     Outer,
+    /// two parameters, the first shared with its caller and its sibling call: Node(Nth, key * 2 + n)
+    Nth,
+    /// calls Nth(id, 0) and Nth(id, 1)
+    Pair,
 }
 
 /// A derived node of the program: function + the (small) argument that identifies the call.
@@ -294,6 +298,29 @@ pub fn outer(db: &TDb, id: SourceId<In>) -> usize {
     v
 }
 
+#[memo(raw)]
+pub fn nth(db: &TDb, id: SourceId<In>, n: u8) -> u8 {
+    let node = Node(F::Nth, key_of(id) * 2 + n);
+    ev(Ev::Enter(node));
+    let v = read_in(db, id) + n * 10;
+    ev(Ev::Exit(node, Val::U8(v)));
+    v
+}
+
+/// a call whose inner calls share their first parameter with it and differ in an owned second one
+#[memo(raw)]
+pub fn pair(db: &TDb, id: SourceId<In>) -> u8 {
+    let node = Node(F::Pair, key_of(id));
+    ev(Ev::Enter(node));
+    let a = *nth(db, id, 0).lookup(db);
+    ev(Ev::Dep(Node(F::Nth, key_of(id) * 2)));
+    let b = *nth(db, id, 1).lookup(db);
+    ev(Ev::Dep(Node(F::Nth, key_of(id) * 2 + 1)));
+    let v = a + b;
+    ev(Ev::Exit(node, Val::U8(v)));
+    v
+}
+
 // ---- reference evaluator: the same functions, from scratch, over plain data --------------------
 
 #[derive(Debug, Clone, Default, PartialEq, Eq)]
@@ -321,6 +348,8 @@ impl Plain {
             F::Tuple => Val::Tup(inv(a), tuple_string(inv(a))),
             F::Second => Val::Str(tuple_string(inv(a))),
             F::Outer => Val::Usize(tuple_string(inv(a)).len() + 100),
+            F::Nth => Val::U8(inv(a / 2) + (a % 2) * 10),
+            F::Pair => Val::U8(2 * inv(a) + 10),
         }
     }
     /// does evaluating `n` need In(k) to be present?
@@ -328,6 +357,7 @@ impl Plain {
         match n.0 {
             F::Sing | F::Owned | F::Borrowed => true,
             F::SumTracked => self.map.iter().all(|k| self.ins.contains_key(k)),
+            F::Nth => self.ins.contains_key(&(n.1 / 2)),
             _ => self.ins.contains_key(&n.1),
         }
     }
